@@ -463,6 +463,7 @@ def get_jax(ck):
         import jax.numpy as jnp
         import nifty.re as jft
         from nifty.re import evi
+        jax.config.update("jax_enable_x64", True)
         st["jax"], st["jnp"], st["jft"], st["evi"] = jax, jnp, jft, evi
         st["rescript"] = ReScript(jax, jnp, evi)
         st["rescript"].install()
@@ -611,11 +612,19 @@ def re_basis_table(jax, keys, nd, nliq, white=None):
         for j in range(min(W, len(keys))):
             white[j, j] = 1.0
     table = []
+    sub = np.asarray(_vsplit2(jax)(jax.numpy.asarray(keys)))      # (len(keys), 2, 2)
     for j in range(len(keys)):
-        k1, k2 = np.asarray(jax.random.split(jax.numpy.asarray(keys[j]), 2))
-        table.append((k1, white[:nd, j]))
-        table.append((k2, white[nd:, j]))
+        table.append((sub[j, 0], white[:nd, j]))
+        table.append((sub[j, 1], white[nd:, j]))
     return table, white
+
+
+def _vsplit2(jax):
+    f = getattr(_vsplit2, "_f", None)
+    if f is None:
+        f = jax.jit(jax.vmap(lambda k: jax.random.split(k, 2)))
+        _vsplit2._f = f
+    return f
 
 
 # =====================================================================================
